@@ -18,6 +18,7 @@ Env(n, d) == IF n \in DOMAIN IOEnv THEN IOEnv[n] ELSE d
 
 Step(t) == [op |-> "expr", ctx |-> 0, text |-> t]
 W(t, v) == [op |-> "expr", ctx |-> 0, text |-> t, want |-> v]
+MustErr(t) == [op |-> "expr", ctx |-> 0, text |-> t, must_err |-> TRUE]
 Ex(t) == [op |-> "exec", ctx |-> 0, free |-> TRUE, text |-> t]
 Begin0(imp) == <<[op |-> "new", ctx |-> 0, trusted |-> TRUE], Ex("import " \o imp \o ";")>>
 
@@ -42,8 +43,10 @@ UScenario(w) ==
       Q2 == SetToSeq(PosU(n) \X {0, 1, 2, 5})
   IN [prop |-> "C18", key |-> "utf8",
       steps |-> Begin0("utf8") \o <<mk, W("U.count()", VInt(n)), W("U.rawsize()", VInt(Len(bs))), W("raw(U.string())", VRaw(bs)), W("U.empty()", VBool(n = 0))>>
-        \o [j \in DOMAIN Q |-> IF Q[j] < n THEN W("U.at(" \o ToString(Q[j]) \o ")", [t |-> "packed", b |-> AtChar(cs, Q[j])]) ELSE Step("U.at(" \o ToString(Q[j]) \o ")")]
-        \o <<Step("U.at((-1))"), Step("U.at(9223372036854775807)"), Step("U.at(int())"), Step("U.substr((-1))"), Step("U.substr(9223372036854775807, 2)"), Step("U.remove((-1), 1)"), Step("U.insert((-1), 65)")>>
+        \o [j \in DOMAIN Q |-> IF Q[j] < n THEN W("U.at(" \o ToString(Q[j]) \o ")", [t |-> "packed", b |-> AtChar(cs, Q[j])]) ELSE MustErr("U.at(" \o ToString(Q[j]) \o ")")]
+        \* every position from the number of characters up to beyond the number of bytes is out of range: an error, never a value
+        \o [j \in 1..(Len(bs) - n + 2) |-> MustErr("U.at(" \o ToString(n + j - 1) \o ")")]
+        \o <<MustErr("U.at((-1))"), MustErr("U.at(9223372036854775807)"), Step("U.at(int())"), Step("U.substr((-1))"), Step("U.substr(9223372036854775807, 2)"), Step("U.remove((-1), 1)"), Step("U.insert((-1), 65)")>>
         \o [j \in DOMAIN Q |-> W("raw(U.substr(" \o ToString(Q[j]) \o "))", VRaw(Flatten(SubstrChars(cs, Q[j], n + 5))))]
         \o [j \in DOMAIN Q2 |-> W("raw(U.substr(" \o ToString(Q2[j][1]) \o ", " \o ToString(Q2[j][2]) \o "))", VRaw(Flatten(SubstrChars(cs, Q2[j][1], Q2[j][2]))))]
         \o Flat([j \in DOMAIN Q |-> IF Q[j] <= n
